@@ -148,8 +148,78 @@ def align_harness(da):
                  "before only if its anchor edge is in the upper half, after only if it is in the lower half")
 
 
+def timeline_harness(shape, mask, cfg_kw):
+  """`keeps the text timeline`: on a document shape of specs/isd_shapes.py with SYMBOLIC begin/end offsets and a symbolic query time t, the
+  visible text (oracle snapshot specs/isd.py: text and line breaks per region, regions in document order) is the same before and after
+  the real LCDDocFilter.process, and the document has no animation step left; the snapshot of the filtered document is also taken
+  by the real ISD.from_model without exception"""
+  from specs import isd as ISDS
+  from specs import isd_shapes
+  from ttconv.isd import ISD
+  import ttconv.model as model
+
+  def texts(doc, t):
+    want, _flags = ISDS.snapshot(doc, t)
+    out = []
+
+    def walk(n):
+      if n[0] == "Text":
+        out.append(n[1])
+      elif n[0] == "Br":
+        out.append("\n")
+      else:
+        for c in n[2]:
+          walk(c)
+    for _rid, node in want.items():
+      walk(node)
+      out.append("|")
+    return [x for x in out if x != ""]
+
+  def run(ctx):
+    vals = {}
+
+    def v(name):
+      if name not in mask:
+        return None
+      if name not in vals:
+        x = sym_frac(name)
+        assume(x >= 0)
+        vals[name] = x
+      return vals[name]
+
+    t = sym_frac("t")
+    assume(t >= 0)
+    before = texts(isd_shapes.SHAPES[shape](v), t)
+    doc = isd_shapes.SHAPES[shape](v)
+    st, _ = core.call_real(LCD.LCDDocFilter(LCD.LCDDocFilterConfig(**cfg_kw)).process, doc, allowed=())
+    prove(st == "ok", "filter-succeeds")
+    left = [e for e in list(doc.iter_regions()) + (list(doc.get_body().dfs_iterator()) if doc.get_body() is not None else [])
+            if not isinstance(e, model.Text) and list(e.iter_animation_steps())]
+    prove(not left, "no-animation-step-left")
+    after = texts(doc, t)
+    prove("".join(before).replace("|", "") == "".join(after).replace("|", ""), "visible-text-at-t-is-the-same-before-and-after",
+          note=f"before {before} after {after}")
+    core.call_real(ISD.from_model, doc, t, allowed=())
+    prove(True, "filtered-document-can-be-snapshotted", kind="raises")
+
+  return Harness(f"timeline[{shape}:{'+'.join(mask)};{','.join(sorted(cfg_kw)) or 'default'}]", run,
+                 ["ttconv.filters.doc.lcd:LCDDocFilter.process", "ttconv.filters.doc.lcd:_replace_regions",
+                  "ttconv.filters.remove_animations:RemoveAnimationFilter.process_element",
+                  "ttconv.filters.supported_style_properties:SupportedStylePropertiesFilter.process_element"],
+                 "replayers.c16:timeline", {"shape": shape, "mask": list(mask), "cfg": {k: (list(v.components) if hasattr(v, "components") else v) for k, v in cfg_kw.items()}},
+                 "the text visible at any time is the same before and after the filter (all rational timings and query times, this shape)")
+
+
+# (shapes in which an element selects another region than its ancestors -- `rubyparts`, `regions` -- are left out: that is the listed
+# known finding `timeline:conflicting-nested-regions`, covered by the bounded tier)
+TIMELINE = [("twop", ("b1", "e1"), {}), ("twop", ("e1", "b2"), {"safe_area": 5, "preserve_text_align": True}),
+            ("nested", ("s1b", "s3e"), {"bg_color": sp.NamedColors.black.value, "color": sp.NamedColors.white.value}),
+            ("nested", ("pb", "s1e"), {}), ("brset", ("ab", "ae"), {}), ("styled", ("pb", "pe"), {"color": sp.NamedColors.red.value}),
+            ("styled", ("ab", "ae"), {"preserve_text_align": True}), ("moving", ("ab", "ae"), {}), ("ruby", ("rub", "rue"), {})]
+
+
 def all_harnesses():
-  return [harness_for(s) for s in SHAPES] + [align_harness(da) for da in (None,) + tuple(sp.DisplayAlignType)]
+  return [harness_for(s) for s in SHAPES] + [align_harness(da) for da in (None,) + tuple(sp.DisplayAlignType)] + [timeline_harness(*a) for a in TIMELINE]
 
 
 def check(tier, seed, only=None, skip_a=False, skip_b=False):
